@@ -73,6 +73,13 @@ def encodings(codes):
         out.append(('pick', 'interface P %s\n' % body(codes), 'Pick<P, %s>' % ' | '.join("'%s'" % k for k in pick), '', {k: E[k] for k in pick}))
         out.append(('pick-alias-keys', 'interface P %s\ntype K = %s;\n' % (body(codes), ' | '.join("'%s'" % k for k in pick)), 'Pick<P, K>', '', {k: E[k] for k in pick}))
         out.append(('omit', 'type P = %s;\n' % body(codes), "Omit<P, '%s'>" % keys[-1], '', {k: E[k] for k in keys[:-1]}))
+        # picking from a member list in which a picked key occurs more than once (intersection operand, child redeclaring, merged)
+        allk = ' | '.join("'%s'" % k for k in keys)
+        first = member_src(codes[0])
+        out.append(('pick-dup-intersection', 'interface Pre {{ %s }}\ninterface P %s\n' % (first, body(codes)), 'Pick<Pre & P, %s>' % allk, '', E))
+        out.append(('pick-dup-child', 'interface Base %s\ninterface P extends Base {{ %s }}\n' % (body(codes), first), 'Pick<P, %s>' % allk, '', E))
+        out.append(('pick-dup-merged', 'interface P {{ %s }}\ninterface P {{ %s }}\ninterface P %s\n' % (first, first, body(codes[1:]) if len(codes) > 1 else '{{}}'), 'Pick<P, %s>' % allk, '', E))
+        out.append(('omit-dup-intersection', 'interface Pre {{ %s }}\ninterface P %s\n' % (first, body(codes)), "Omit<Pre & P, '%s'>" % keys[-1], '', {k: E[k] for k in keys[:-1]}))
     out.append(('indexed', 'interface Outer {{ p: %s; other: number }}\n' % body(codes), "Outer['p']", '', E))
     out.append(('indexed-alias', 'type Outer = {{ p: %s }};\n' % body(codes), "Outer['p']", '', E))
     out.append(('imported', "import type {{ P }} from './types';\n", 'P', '', 'ERROR'))
